@@ -25,6 +25,9 @@ structure AppObs where
   reply : Option Bytes
   /-- local port after the call (STUN may bump it) -/
   portAfter : Nat
+  /-- continuation segment of a TCP flow already identified (sticky id): the responder of that protocol
+      sees this segment alone -/
+  forced : Option Nat := none
 
 /-- protocol family of a reply, from its shape -/
 inductive RClass where
@@ -48,7 +51,10 @@ def classId : RClass → Option Nat
   | .rpcTcp => some ID_RPC_TCP | .rpcUdp => some ID_RPC_UDP | .smb1 => some ID_SMB1 | .smb2 => some ID_SMB2
   | _ => none
 
-def refOf (o : AppObs) : Option Nat := if o.tcp then refStream o.payload else refDatagram o.payload
+def refOf (o : AppObs) : Option Nat :=
+  match o.forced with
+  | some i => some i
+  | none => if o.tcp then refStream o.payload else refDatagram o.payload
 
 /-- verdict with a machine-readable hint that the failure sits in the known shadow set K2 -/
 def failShadow (o : AppObs) (c : String) : Verdict :=
@@ -86,9 +92,27 @@ def judgeC13 (o : AppObs) : Verdict :=
     | some r => if isHttp ∧ !reply401Ok r then failv "401 response malformed" else pass true
     | none => pass false
 
+/-- identification string without the dispatcher's version prefix: `SSH-` digits/dots `-` … CR LF -/
+def sshIdent (p : Bytes) : Bool :=
+  "SSH-".toUTF8.toList.isPrefixOf p &&
+  (let (_, r) := spanP (fun b => digit b || b = DOT) (p.drop 4)
+   match r with
+   | 45 :: rest => hasCRLF rest
+   | _ => false)
+
 def judgeC18 (o : AppObs) : Verdict :=
   let p := o.payload
-  if "Gh0st".toUTF8.toList.isPrefixOf p then
+  if o.forced = some ID_SSH then
+    -- later segment of a flow identified as SSH: the responder parses this segment from scratch
+    (if sshAnswered p then
+       (if o.reply = some sshBannerExpected then pass true else failv "SSH identification string on an SSH flow not answered with SSH-2.0-1")
+     else if !sshIdent p then
+       (match o.reply with
+        | some r => if classify r = .ssh then failv "SSH banner sent for a malformed / unterminated identification string (later segment)" else pass true
+        | none => pass true)
+     else pass false)
+  else if o.forced.isSome then pass false
+  else if "Gh0st".toUTF8.toList.isPrefixOf p then
     match o.reply with
     | some r => if ghostFrameOk r then pass true else failv "Gh0st frame inconsistent (total length / inflated length)"
     | none => failv "Gh0st magic not answered"
@@ -118,12 +142,12 @@ def judgeC14 (o : AppObs) : Verdict :=
 
 def judgeC15 (o : AppObs) : Verdict :=
   let p := o.payload
-  if o.tcp then pass false else
+  if o.tcp ∧ o.forced.isNone then pass false else
   match parseStun p with
   | none => pass false
   | some m =>
     if m.cls = 0 ∧ m.method = 1 ∧ u8 p 0 = 0 ∧ u8 p 1 = 1 then
-      if refDatagram p = some ID_STUN then
+      if refOf o = some ID_STUN then
         (match o.reply with
          | some r =>
            if !stunSuccessOk m r o.src o.sport then failShadow o "STUN success response wrong (transaction id / length / MAPPED-ADDRESS)"
